@@ -37,6 +37,10 @@ func script(w *W) string {
 	for p, n := range w.Producers {
 		fmt.Fprintf(&b, "spawn(function() use ($ch) {\n%s", nap(id))
 		for k := 0; k < n; k++ {
+			if w.ArrayPayload {
+				fmt.Fprintf(&b, "  $a = [\"p%d\", \"%d\"];\n  __b(%d, \"send\", \"p%d-%d\");\n  $r = $ch->send($a);\n  __e(%d, $r);\n", p, k, id, p, k, id)
+				continue
+			}
 			fmt.Fprintf(&b, "  __b(%d, \"send\", \"p%d-%d\");\n  $r = $ch->send(\"p%d-%d\");\n  __e(%d, $r);\n", id, p, k, p, k, id)
 		}
 		if w.CloseAfter && w.Closers > 0 {
@@ -74,6 +78,29 @@ func script(w *W) string {
 		fmt.Fprintf(&b, "  __b(%d, \"close\", \"\");\n  $ch2->close();\n  __e(%d, \"ok\");\n});\n", tp, tp)
 		fmt.Fprintf(&b, "spawn(function() use ($ch2) {\n  while (true) {\n    __b(%d, \"recv\", \"\");\n    $v = $ch2->receive();\n    __e(%d, $v);\n    if ($v === null) { break; }\n  }\n});\n", tp+1, tp+1)
 	}
+	if w.Nested {
+		// everything is spawned from inside one spawned coroutine
+		body := b.String()
+		head := "<?php\n"
+		body = strings.TrimPrefix(body, head)
+		first, rest, _ := strings.Cut(body, "\n") // the `$ch = new Channel(n);` line stays outside
+		// (a closure nested in a closure cannot `use` a variable the outer one
+		// itself captured — an interpreter limitation outside C09 — so the outer
+		// coroutine copies the channel into locals first)
+		rest = strings.ReplaceAll(rest, "use ($ch)", "use ($nc)")
+		rest = strings.ReplaceAll(rest, "use ($ch2)", "use ($nc2)")
+		rest = strings.ReplaceAll(rest, "$ch->", "$nc->")
+		rest = strings.ReplaceAll(rest, "$ch2->", "$nc2->")
+		twin := ""
+		if strings.Contains(rest, "$ch2 = new Channel") {
+			// the twin channel is created inside the outer coroutine
+			twin = "  $nc2 = $ch2;\n"
+			i := strings.Index(rest, "$ch2 = new Channel")
+			j := i + strings.Index(rest[i:], "\n") + 1
+			rest = rest[:j] + twin + rest[j:]
+		}
+		return head + first + "\nspawn(function() use ($ch) {\n  $nc = $ch;\n" + rest + "});\n"
+	}
 	return b.String()
 }
 
@@ -97,7 +124,15 @@ func execScript(t *testing.T, w *W, s hx.Sched) *hx.Outcome {
 		}})
 		env.VM.AddFunc(&hx.GoFunc{Name: "__e", Params: []string{"task", "ret"}, Fn: func(ctx data.Context, a []data.Value) (data.GetValue, data.Control) {
 			id := atoi(hx.ValStr(a[0]))
-			h.end(id, cur[id], hx.ValStr(a[1]))
+			ret := hx.ValStr(a[1])
+			if arr, ok := a[1].(*data.ArrayValue); ok {
+				var parts []string
+				for _, v := range arr.ToValueList() {
+					parts = append(parts, hx.ValStr(v))
+				}
+				ret = strings.Join(parts, "-")
+			}
+			h.end(id, cur[id], ret)
 			return data.NewNullValue(), nil
 		}})
 		env.VM.AddFunc(&hx.GoFunc{Name: "__producer_done", Params: []string{}, Fn: func(ctx data.Context, a []data.Value) (data.GetValue, data.Control) {
